@@ -16,7 +16,7 @@ if os.path.isdir("harness/verifx"):
     print("translator:", msg)
 check.ensure_makefile()
 PY
-(cd coq && timeout 3000 make -j16 2>&1 | tail -5)
+(cd coq && timeout 3000 make -k -j16 2>&1 | grep -v '^Closed under' | tail -15) || true
 python3 - <<'PY'
 import sys, os, shutil
 sys.path.insert(0, "bin")
@@ -24,7 +24,9 @@ import check
 from props import PROPS
 d = "/var/tmp/verif-setup"
 shutil.rmtree(d, ignore_errors=True); os.makedirs(d)
+READY = [l.strip() for l in open('registry/READY') if l.strip()]
 for pid, p in sorted(PROPS.items()):
+    if pid not in READY: continue
     ok, out, b = check.build_driver(p, d)
     print("driver", pid, "ok" if ok else "FAILED")
 shutil.rmtree(d, ignore_errors=True)
